@@ -471,8 +471,14 @@ func (e *Engine) runPath(h *Harness, solver *smt.Solver, prefix []Decision, opt 
 			case abortPath:
 				out.status = r.kind
 				switch r.kind {
-				case "unmodelled", "unknown", "deadlock":
+				case "unmodelled", "unknown":
 					p.inconclusive = append(p.inconclusive, h.Name+": "+r.kind+": "+r.reason)
+				case "deadlock":
+					// a thread waits for a lock it holds itself (or a sequential channel model blocks): candidate, the
+					// native replay under the watchdog decides
+					if p.violationCandidate(nil, "deadlock", h.Prop+"/deadlock", r.reason) != smt.Sat {
+						p.inconclusive = append(p.inconclusive, h.Name+": "+r.kind+": "+r.reason)
+					}
 				case "unwind", "steps":
 					// candidate for a non-termination finding: hand a model to the replayer (watchdog decides)
 					if p.violationCandidate(nil, "unwind", h.Prop+"/unwind", r.reason) != smt.Sat {
